@@ -1,6 +1,308 @@
 import Driver.Util
+import ProcSim.Model.Loader
+import ProcSim.Spec.Loader
+/-!
+# Loader component of `psdriver`: ops `"load"` and `"mkproc"`
+
+## `load`
+Request
+```
+{"op":"load",
+ "desc":{"units":[{"name":s,"width":int,"capabilities":[s],"readLock":bool?,"writeLock":bool?,"memoryAccess":[s]?}],
+         "dataPath":[[s,…],…]},
+ "impl": {"ok":true,"proc":PROC} | {"ok":false,"error":{"class":s,"fields":{…},"message":s}}      (optional)}
+PROC  = {"inPorts":[UNIT],"outPorts":[FUNIT],"inOut":[UNIT],"internal":[FUNIT]}     (orders as stored)
+UNIT  = {"name":s,"width":int,"caps":[s],"rd":bool,"wr":bool,"acl":[s]}     FUNIT = UNIT + {"preds":[s]}
+fields by class: DupElemError{old,new} BadWidthError{unit,width} BadEdgeError{edge:[s]} UndefElemError{elem}
+  NetworkXUnfeasible{} DeadInputError{port} EmptyProcError{} PathLockError{start,lockType:"read"|"write",capability}
+  BlockedCapError{capability,port}; any other class name is reported as an unexpected exception.
+```
+Answer
+```
+{"model":{"ok":true,"proc":PROC} | {"ok":false,"error":{"class":s,"fields":{…}}},
+ "defects":[class names of `Spec.defects`],
+ -- with "impl":
+ "k":{"C09":b,"C10":b,"C11":b,"C12":b}, "o":{"C09":null|clause,…}, "app":{"C09":b,…},
+ "info":{"classEq":b,"implClass":s|null}}
+```
+K (model vs implementation, projection-wise):
+* C09: same accept/reject bit, and when both accept: same units (name, width, capabilities, locks, predecessors as sets).
+* C10: same accept/reject bit, and when both accept: the full canonical processor (also memory ACLs) and the four port classes as sets.
+* C11: same accept/reject bit, and when both reject: the implementation's class equals the model's or is among
+  `Spec.defects` (the order of independent checks is not part of the property).
+* C12: when the implementation accepts: its internal order is sink-first; when both accept: the four port classes
+  agree as sets and the output-port order is the same.
+O (checker on the implementation's output): `Spec.checkC09/10/11/12`; C11 additionally checks that the message
+contains the fields. `app` says whether the property speaks about this case (C09/C12: implementation accepted;
+C10: accepted and the description is syntactically correct and acyclic; C11: always).
+
+## `mkproc`
+Request `{"op":"mkproc","parts":PROC (any orders), "impl":{"ok":true,"proc":PROC} | {"ok":false,"error":{…}}}`;
+answer `{"model":{"ok":true,"proc":PROC}|{"ok":false}, "k":{"C12":b}, "o":{"C12":null|clause}, "app":{"C12":b}}`.
+K: same ok bit; input / in-out ports unchanged; output ports in the model's (name) order; the internal units are a
+permutation of the supplied ones in a sink-first order (validity, not identity).
+-/
 open Lean
+open ProcSim ProcSim.Loader
 namespace Driver.LoaderOps
-/-- stub: filled in by the Loader component -/
-def handle : Driver.Handler := fun _ _ => none
+
+abbrev S := String
+
+def foldS (s : S) : S := s.map Char.toLower
+
+/-! ### decoding -/
+
+def optBool (j : Json) (k : String) : Except String Bool :=
+  match optField j k with
+  | none => pure false
+  | some v => match v with
+    | .null => pure false
+    | _ => v.getBool?
+
+def optStrs (j : Json) (k : String) : Except String (List S) :=
+  match optField j k with
+  | none => pure []
+  | some v => match v with
+    | .null => pure []
+    | _ => do (← asArr v).mapM (·.getStr?)
+
+def decUnitD (j : Json) : Except String (UnitD S) := do
+  return ⟨← getStr j "name", ← getInt j "width", ← getStrs j "capabilities",
+          ← optBool j "readLock", ← optBool j "writeLock", ← optStrs j "memoryAccess"⟩
+
+def decDesc (j : Json) : Except String (Desc S) := do
+  let us ← (← getArr j "units").mapM decUnitD
+  let es ← (← getArr j "dataPath").mapM (fun e => do (← asArr e).mapM (·.getStr?))
+  return ⟨us, es⟩
+
+/-- a negative width (only a broken loader lets it through) becomes 0, which the C09/C10 checkers reject -/
+def decUnitM (j : Json) : Except String (UnitM S) := do
+  return ⟨← getStr j "name", (← getInt j "width").toNat, ← getStrs j "caps", ← getBool j "rd", ← getBool j "wr",
+          ← getStrs j "acl"⟩
+
+def decFuncU (j : Json) : Except String (FuncU S) := do
+  return ⟨← decUnitM j, ← getStrs j "preds"⟩
+
+def decProc (j : Json) : Except String (Proc S) := do
+  return ⟨← (← getArr j "inPorts").mapM decUnitM, ← (← getArr j "outPorts").mapM decFuncU,
+          ← (← getArr j "inOut").mapM decUnitM, ← (← getArr j "internal").mapM decFuncU⟩
+
+/-- implementation's exception: a known class with well-typed fields, or just its class name -/
+def decError (j : Json) : Except String (Option (LoadError S) × String) := do
+  let cls ← getStr j "class"
+  let f := (optField j "fields").getD (Json.mkObj [])
+  let r : Except String (LoadError S) :=
+    match cls with
+    | "DupElemError" => do return .dupElem (← getStr f "old") (← getStr f "new")
+    | "BadWidthError" => do return .badWidth (← getStr f "unit") (← getInt f "width")
+    | "BadEdgeError" => do return .badEdge (← getStrs f "edge")
+    | "UndefElemError" => do return .undefElem (← getStr f "elem")
+    | "NetworkXUnfeasible" => pure .cyclic
+    | "DeadInputError" => do return .deadInput (← getStr f "port")
+    | "EmptyProcError" => pure .emptyProc
+    | "PathLockError" => do
+      let t ← getStr f "lockType"
+      let lt ← (if t == "read" then pure LockType.read else if t == "write" then pure LockType.write
+                else throw "lockType")
+      return .pathLock (← getStr f "start") lt (← getStr f "capability")
+    | "BlockedCapError" => do return .blockedCap (← getStr f "capability") (← getStr f "port")
+    | _ => throw "unknown class"
+  return (r.toOption, cls)
+
+/-! ### encoding -/
+
+def encUnitM (m : UnitM S) : List (String × Json) :=
+  [("name", Json.str m.name), ("width", jnat m.width), ("caps", jstrs m.caps), ("rd", Json.bool m.rd),
+   ("wr", Json.bool m.wr), ("acl", jstrs m.acl)]
+
+def encFuncU (f : FuncU S) : Json := Json.mkObj (encUnitM f.model ++ [("preds", jstrs f.preds)])
+
+def encProc (p : Proc S) : Json :=
+  Json.mkObj [("inPorts", jarr (p.inPorts.map (fun m => Json.mkObj (encUnitM m)))),
+              ("outPorts", jarr (p.outPorts.map encFuncU)),
+              ("inOut", jarr (p.inOut.map (fun m => Json.mkObj (encUnitM m)))),
+              ("internal", jarr (p.internal.map encFuncU))]
+
+def encError (e : LoadError S) : Json :=
+  let fields : List (String × Json) := match e with
+    | .dupElem o n => [("old", Json.str o), ("new", Json.str n)]
+    | .badWidth u w => [("unit", Json.str u), ("width", jint w)]
+    | .badEdge ed => [("edge", jstrs ed)]
+    | .undefElem x => [("elem", Json.str x)]
+    | .cyclic => []
+    | .deadInput p => [("port", Json.str p)]
+    | .emptyProc => []
+    | .pathLock s t c => [("start", Json.str s), ("lockType", Json.str t.code), ("capability", Json.str c)]
+    | .blockedCap c p => [("capability", Json.str c), ("port", Json.str p)]
+  Json.mkObj [("class", Json.str e.cls.pyName), ("fields", Json.mkObj fields)]
+
+def encOpt (o : Option String) : Json := match o with | none => Json.null | some s => Json.str s
+
+/-! ### canonical forms (sets sorted, units by name) -/
+
+structure CUnit where
+  name : S
+  width : Nat
+  caps : List S
+  rd : Bool
+  wr : Bool
+  acl : List S
+  preds : List S
+deriving DecidableEq, Repr
+
+def canonUnits (p : Proc S) : List CUnit :=
+  let mk := fun (m : UnitM S) (ps : List S) => (⟨m.name, m.width, sortNames m.caps, m.rd, m.wr, sortNames m.acl, sortNames ps⟩ : CUnit)
+  isort (fun a b => !decide (b.name < a.name))
+    (p.inPorts.map (mk · []) ++ p.inOut.map (mk · []) ++ p.outPorts.map (fun f => mk f.model f.preds) ++
+     p.internal.map (fun f => mk f.model f.preds))
+
+def classes (p : Proc S) : List (List S) :=
+  [sortNames (p.inPorts.map (·.name)), sortNames (p.outPorts.map (·.model.name)),
+   sortNames (p.inOut.map (·.name)), sortNames (p.internal.map (·.model.name))]
+
+/-! ### "message contains the fields" -/
+
+def isPrefixC : List Char → List Char → Bool
+  | [], _ => true
+  | _ :: _, [] => false
+  | a :: as, b :: bs => a == b && isPrefixC as bs
+
+def isInfixC (pat : List Char) : List Char → Bool
+  | [] => pat.isEmpty
+  | c :: cs => isPrefixC pat (c :: cs) || isInfixC pat cs
+
+def contains (msg part : String) : Bool := isInfixC part.toList msg.toList
+
+def fieldStrings : LoadError S → List String
+  | .dupElem o n => [o, n]
+  | .badWidth u w => [u, toString w]
+  | .badEdge e => e
+  | .undefElem x => [x]
+  | .cyclic => []
+  | .deadInput p => [p]
+  | .emptyProc => []
+  | .pathLock s t c => [s, t.code, c]
+  | .blockedCap c p => [c, p]
+
+def fieldsInMessage (e : LoadError S) (msg : String) : Bool := (fieldStrings e).all (contains msg)
+
+/-! ### op `load` -/
+
+def encResult (r : Except (LoadError S) (Proc S)) : Json :=
+  match r with
+  | .ok p => Json.mkObj [("ok", Json.bool true), ("proc", encProc p)]
+  | .error e => Json.mkObj [("ok", Json.bool false), ("error", encError e)]
+
+inductive Impl
+  | ok (p : Proc S)
+  | err (e : Option (LoadError S)) (cls : String) (msg : String)
+
+def decImpl (j : Json) : Except String Impl := do
+  if ← getBool j "ok" then
+    return .ok (← decProc (← j.getObjVal? "proc"))
+  else
+    let ej ← j.getObjVal? "error"
+    let (e, cls) ← decError ej
+    let msg := ((getStr ej "message").toOption).getD ""
+    return .err e cls msg
+
+def props (f : String → Json) : Json := Json.mkObj (["C09", "C10", "C11", "C12"].map (fun k => (k, f k)))
+
+def opLoad (j : Json) : Except String Json := do
+  let d ← decDesc (← j.getObjVal? "desc")
+  let m := load foldS d
+  let defs := Spec.defects foldS d
+  let base : List (String × Json) :=
+    [("model", encResult m), ("defects", jstrs (defs.map (·.pyName)))]
+  match optField j "impl" with
+  | none => return Json.mkObj base
+  | some ij =>
+    let impl ← decImpl ij
+    -- syntactically correct and acyclic: the usable part (C10) is defined
+    let structural := defs.all (fun c => decide (Spec.stageOf c > 3))
+    match impl with
+    | .ok ip =>
+      let acceptEq := match m with | .ok _ => true | .error _ => false
+      let k09 := match m with
+        | .ok mp => (canonUnits mp).map (fun u => { u with acl := [] }) == (canonUnits ip).map (fun u => { u with acl := [] })
+        | .error _ => false
+      let k10 := match m with
+        | .ok mp => canonUnits mp == canonUnits ip && classes mp == classes ip
+        | .error _ => false
+      let k12 := Spec.sinkFirstB ip.internal && (match m with
+        | .ok mp => classes mp == classes ip && mp.outPorts.map (·.model.name) == ip.outPorts.map (·.model.name)
+        | .error _ => true)
+      let o09 := Spec.firstFail (Spec.clausesC09 foldS ip)
+      let o10 := if structural then Spec.firstFail (Spec.clausesC10 foldS d ip) else none
+      let o11 := Spec.firstFail (Spec.clausesC11 foldS d .accepted)
+      let o12 := Spec.firstFail (Spec.clausesC12 ip)
+      return Json.mkObj (base ++
+        [("k", props (fun k => Json.bool (match k with | "C09" => k09 | "C10" => k10 | "C11" => acceptEq | _ => k12))),
+         ("o", props (fun k => encOpt (match k with | "C09" => o09 | "C10" => o10 | "C11" => o11 | _ => o12))),
+         ("app", props (fun k => Json.bool (match k with | "C10" => structural | _ => true))),
+         ("info", Json.mkObj [("classEq", Json.bool acceptEq), ("implClass", Json.null)])])
+    | .err e cls msg =>
+      let rejectEq := match m with | .ok _ => false | .error _ => true
+      let classEq := match m, e with
+        | .error me, some ie => decide (me.cls = ie.cls)
+        | _, _ => false
+      let classIn := match e with
+        | some ie => decide (ie.cls ∈ defs)
+        | none => false
+      let k11 := rejectEq && (classEq || classIn)
+      let o11 := match e with
+        | none => some ("C11.class: unexpected exception class " ++ cls)
+        | some ie =>
+          match Spec.firstFail (Spec.clausesC11 foldS d (.rejected ie)) with
+          | some c => some c
+          | none => if fieldsInMessage ie msg then none else some "C11.message: the message does not contain the exception's fields"
+      return Json.mkObj (base ++
+        [("k", props (fun k => Json.bool (match k with | "C11" => k11 | "C12" => true | _ => rejectEq))),
+         ("o", props (fun k => encOpt (match k with | "C11" => o11 | _ => none))),
+         ("app", props (fun k => Json.bool (match k with | "C11" => true | _ => false))),
+         ("info", Json.mkObj [("classEq", Json.bool classEq), ("implClass", Json.str cls)])])
+
+/-! ### op `mkproc` -/
+
+def sameBag (a b : List (FuncU S)) : Bool :=
+  let key := fun (l : List (FuncU S)) =>
+    isort (fun (x y : FuncU S) => !decide (y.model.name < x.model.name)) l
+  key a == key b
+
+def opMkProc (j : Json) : Except String Json := do
+  let parts ← decProc (← j.getObjVal? "parts")
+  let m := mkProc parts.inPorts (parts.outPorts.map (fun f => mkFuncU f.model f.preds)) parts.inOut
+    (parts.internal.map (fun f => mkFuncU f.model f.preds))
+  let mj := match m with
+    | some p => Json.mkObj [("ok", Json.bool true), ("proc", encProc p)]
+    | none => Json.mkObj [("ok", Json.bool false)]
+  match optField j "impl" with
+  | none => return Json.mkObj [("model", mj)]
+  | some ij =>
+    if ← getBool ij "ok" then
+      let ip ← decProc (← ij.getObjVal? "proc")
+      let k := match m with
+        | none => false
+        | some mp =>
+          ip.inPorts == mp.inPorts && ip.inOut == mp.inOut && ip.outPorts == mp.outPorts &&
+          sameBag ip.internal mp.internal && Spec.sinkFirstB ip.internal
+      let o := Spec.firstFail (Spec.clausesC12Order ip)
+      return Json.mkObj [("model", mj), ("k", Json.mkObj [("C12", Json.bool k)]),
+                         ("o", Json.mkObj [("C12", encOpt o)]), ("app", Json.mkObj [("C12", Json.bool true)])]
+    else
+      let cls := ((do getStr (← ij.getObjVal? "error") "class" : Except String String).toOption).getD "?"
+      -- the property quantifies over DAGs: a constructor that fails on one violates it
+      let k := match m with | none => cls == "NetworkXUnfeasible" | some _ => false
+      let o := match m with
+        | none => none
+        | some _ => some ("C12.construct: ProcessorDesc(...) raised " ++ cls ++ " on an acyclic set of parts")
+      return Json.mkObj [("model", mj), ("k", Json.mkObj [("C12", Json.bool k)]),
+                         ("o", Json.mkObj [("C12", encOpt o)]), ("app", Json.mkObj [("C12", Json.bool m.isSome)])]
+
+def handle : Driver.Handler := fun op j =>
+  match op with
+  | "load" => some (opLoad j)
+  | "mkproc" => some (opMkProc j)
+  | _ => none
+
 end Driver.LoaderOps
